@@ -172,16 +172,21 @@ fn create_diagnostic(err: &SplError, text: &str) -> Diagnostic {
 pub fn as_position(index: usize, text: &str) -> Position {
     let mut line = 0;
     let mut character = 0;
-    for (i, c) in text.char_indices() {
+    let mut chars = text.char_indices().peekable();
+    while let Some((i, c)) = chars.next() {
         if i == index {
             break;
         }
-        if c == '\n' {
-            line += 1;
-            character = 0;
-        } else {
+        match c {
+            // "\r\n" is a single line terminator, the line ends with the '\n'
+            '\r' if matches!(chars.peek(), Some((_, '\n'))) => {}
+            // LSP lines end with "\n", "\r\n" or "\r"
+            '\n' | '\r' => {
+                line += 1;
+                character = 0;
+            }
             // LSP columns count UTF-16 code units
-            character += c.len_utf16() as u32;
+            _ => character += c.len_utf16() as u32,
         }
     }
     Position { line, character }
@@ -210,18 +215,24 @@ fn as_index_range(pos_range: &PosRange, text: &str) -> TextRange {
 pub fn get_insertion_index(position: &Position, text: &str) -> usize {
     let mut line = 0;
     let mut character = 0;
-    for (i, c) in text.char_indices() {
+    let mut chars = text.char_indices().peekable();
+    while let Some((i, c)) = chars.next() {
         // Either the column is reached or the line ends in front of it:
         // a column behind the end of a line denotes the end of that line.
-        if line == position.line && (character >= position.character || c == '\n') {
+        let line_end = c == '\n' || c == '\r';
+        if line == position.line && (character >= position.character || line_end) {
             return i;
         }
-        if c == '\n' {
-            line += 1;
-            character = 0;
-        } else {
+        match c {
+            // "\r\n" is a single line terminator, the line ends with the '\n'
+            '\r' if matches!(chars.peek(), Some((_, '\n'))) => {}
+            // LSP lines end with "\n", "\r\n" or "\r"
+            '\n' | '\r' => {
+                line += 1;
+                character = 0;
+            }
             // LSP columns count UTF-16 code units
-            character += c.len_utf16() as u32;
+            _ => character += c.len_utf16() as u32,
         }
     }
     text.len()
